@@ -69,6 +69,12 @@ pub fn generate(seed: u64) -> Case {
             lex.push('\n');
         }
     }
+    // four lexer files in ten declare a start state, and some of their rules then name it as
+    // their target (`regex <+SX>"NAME"`): the name no longer follows the last blank directly
+    let states = r.chance(40);
+    if states {
+        lex.push_str("%s SX\n");
+    }
     lex.push_str("%%\n");
     let mut lnames: Vec<&String> = both.iter().chain(only_l.iter()).collect();
     for i in (1..lnames.len()).rev() {
@@ -80,7 +86,8 @@ pub fn generate(seed: u64) -> Case {
             lex.push('\n');
         }
         let pad = " ".repeat(r.below(6) as usize);
-        lex.push_str(&format!("r{i}x{pad} \"{n}\"\n"));
+        let target = if states && r.chance(50) { *r.pick(&["<+SX>", "<SX>", "<-SX>"]) } else { "" };
+        lex.push_str(&format!("r{i}x{pad} {target}\"{n}\"\n"));
     }
     lex.push_str("[ \\t\\n]+ ;\n");
     // grammar
